@@ -298,6 +298,33 @@ def _runtime_amount(m, n):
     return None
 
 
+def _level_like(m, n, depth=0):
+    """the amount is a level-sized quantity: sums / differences of run-time leaves and constants (through const locals); a product
+    of run-time quantities (levels x order, ...) is not bounded by the number of levels"""
+    n = strip(n)
+    if n is None or depth > 8:
+        return False
+    k = n.get("k")
+    if k in ("IntegerLiteral",):
+        return True
+    if k in ("CXXStaticCastExpr", "CStyleCastExpr", "CXXFunctionalCastExpr") and kids(n):
+        return _level_like(m, kids(n)[0], depth + 1)
+    if k == "UnaryOperator" and n.get("op") in ("-", "+"):
+        return _level_like(m, kids(n)[0], depth + 1)
+    if k == "BinaryOperator" and n.get("op") in ("+", "-"):
+        return all(_level_like(m, c, depth + 1) for c in kids(n))
+    if k == "BinaryOperator":
+        return False
+    if k == "DeclRefExpr" and n.get("dk") == "Var":
+        d = m.decls.get(n.get("did"))
+        if d is not None and kids(d) and "const" in d.get("t", "") and n.get("did") not in m.loop_vars:
+            return _level_like(m, kids(d)[0], depth + 1)
+        return True
+    if k in ("DeclRefExpr", "MemberExpr", "CXXDependentScopeMemberExpr", "CallExpr", "CXXMemberCallExpr"):
+        return True
+    return False
+
+
 def shift_width(facts, res, R="C15.4.shift-width", roots_only=False):
     """A tree level is valid up to 63/Dim (Dim 1: 63, Dim 2: 31), a tree height up to one more, and the number of
     periodic levels above the root is a free run-time argument.  `a << n` is evaluated in the promoted type of a:
@@ -341,13 +368,14 @@ def shift_width(facts, res, R="C15.4.shift-width", roots_only=False):
             if why is None:
                 continue
             key = "%s:%s" % (fn["name"], facts.ntext(x))
-            if skip:
+            if skip and _level_like(m, b):
                 res.instance(R, key, facts.loc(x), "32-bit shift by a run-time amount in 3-D-only code (%s): level <= 21" % skip[0], nontrivial=False)
                 continue
             hits += 1
             res.violation(R, path, fn["qname"], key, x["l"][1],
-                          "`%s` is evaluated in the 32-bit type '%s' but the amount depends on the run-time quantity `%s`: tree levels up to 63/Dim are valid "
-                          "(Dim 1: 63, Dim 2: 31), so the shift overflows or is undefined on a valid deep tree; shift a 64-bit value" % (facts.ntext(x), lt, why))
+                          ("`%s` is evaluated in the 32-bit type '%s' but the amount depends on the run-time quantity `%s`: " % (facts.ntext(x), lt, why)) +
+                          ("the amount is a product of run-time quantities, not a level, and is not bounded by 31 (a few levels times the expansion order already exceed it)" if skip else
+                           "tree levels up to 63/Dim are valid (Dim 1: 63, Dim 2: 31), so the shift overflows or is undefined on a valid deep tree") + "; shift a 64-bit value")
     return n_seen, n_wide, hits
 
 
